@@ -116,7 +116,8 @@ impl<T> Arr2D<T> {
     /// This function will return an error if the size isn't divislbe by the new height
     pub fn reshape(&mut self, height: usize) -> Result<(), Arr2DError> {
         let size = self.height * self.width;
-        if !size.is_multiple_of(height) {
+        // 0 is a multiple of 0, but a height of 0 leaves no width to divide for
+        if height == 0 || !size.is_multiple_of(height) {
             return Err(Arr2DError::InvalidReshape {
                 size,
                 new_height: height,
@@ -559,14 +560,6 @@ impl<T: Clone, U: TryFrom<T>> TryFrom<&Arr2D<T>> for Arr2D<U> {
     type Error = Arr2DError;
 
     fn try_from(arr: &Arr2D<T>) -> Result<Self, Self::Error> {
-        if arr.is_empty() {
-            return Ok(Self {
-                inner: vec![],
-                height: 0,
-                width: 0,
-            });
-        }
-
         let mut inner = Vec::with_capacity(arr.inner.len());
         for x in &arr.inner {
             inner.push(
